@@ -55,12 +55,27 @@ def run_storage_harness(chk, behaviours, name="storage"):
 def behaviours_from(chk, exported, caches, sweep, limit):
     rnd = random.Random(chk.seed)
     if limit and len(exported) > limit:
-        exported = rnd.sample(exported, limit)
+        # stratified: every behaviour that is mostly transaction control (at most one data write among its steps) is kept -
+        # these are few and carry the begin / commit / rollback protocol - the rest is a seeded sample
+        def data_steps(steps):
+            return sum(1 for st in steps if st["op"] in ("set", "batch_set", "tombstone", "ext_set"))
+        control = [x for x in exported if data_steps(x[1]) <= 1]
+        if len(control) > limit // 2:
+            control = rnd.sample(control, limit // 2)
+        keep = set(id(x) for x in control)
+        rest = [x for x in exported if id(x) not in keep]
+        exported = control + rnd.sample(rest, min(len(rest), limit - len(control)))
     bs = []
     for i, (cfg, steps) in enumerate(exported):
         u = UNIVERSE[cfg]
         bs.append(dict(id=i + 1, cache=caches[i % len(caches)], users=u["users"], epochs=u["epochs"], versions=u["versions"],
                        nodes=u["nodes"], sweep=sweep, steps=steps))
+    # second laps: TLC visits a state once, so no exported path goes through 'begin, rollback' (or an empty commit) and on;
+    # in the specification these prefixes return to the initial state, so any exported behaviour may follow them
+    laps = [[{"op": "begin"}, {"op": "rollback"}], [{"op": "begin"}, {"op": "commit"}], [{"op": "begin"}, {"op": "rollback"}, {"op": "begin"}, {"op": "rollback"}]]
+    flat_ones = [b for b in bs if b["sweep"] == "end"]
+    for j, b in enumerate(rnd.sample(flat_ones, min(len(flat_ones), 300))):
+        bs.append(dict(b, id=len(bs) + 1, steps=laps[j % len(laps)] + b["steps"]))
     return bs
 
 def nontrivial_count(chk, traces, pred):
